@@ -44,17 +44,36 @@ def case_strategy(draw, tier="quick"):
     lo = draw(st.sampled_from([2, 5, 10]))
     steps = draw(st.lists(step, min_size=lo, max_size=18))
     acts = [list(a) for s in steps for a in s][:60]
-    return {"spec": spec, "cmodes": {str(len(nodes) - 1): mode}, "actions": acts}
+    # optionally detach the timing node from its upstream in mid-run and attach it again:
+    # destroy() only disconnects; what the node already accepted must still be delivered
+    detach = None
+    if draw(st.integers(0, 3)) == 0 and len(acts) >= 2:
+        i = draw(st.integers(0, len(acts) - 1))
+        j = draw(st.integers(i, len(acts)))
+        detach = [i, j]
+    return {"spec": spec, "cmodes": {str(len(nodes) - 1): mode}, "actions": acts,
+            "detach": detach}
 
 
 def execute(case):
     spec = case["spec"]
     cm = {int(k): m for k, m in case["cmodes"].items()}
-    run = schedule.execute(case, consumer_modes=cm)
-    ev = run.log.events
     nodes = spec["nodes"]
     sink = len(nodes) - 1
     node = sink - 1
+    step_hook = None
+    if case.get("detach"):
+        i0, j0 = case["detach"]
+
+        def step_hook(k, built):
+            n = built.nodes[node]
+            up = built.nodes[nodes[node]["u"][0]]
+            if k == i0:
+                n.destroy()
+            if k == j0 and not n.upstreams:
+                up.connect(n)
+    run = schedule.execute(case, consumer_modes=cm, step_hook=step_hook)
+    ev = run.log.events
     kind = nodes[node]["k"]
     iv = nodes[node]["p"]["i"]
     arr = [(min(prov(e[3])), e[5]) for e in ev if e[0] == "arr" and e[1] == node]
@@ -89,7 +108,8 @@ def execute(case):
     times = [t for _, t in arr]
     idle_gap = any(b - a >= iv for a, b in zip(times, times[1:]))
     burst = any(times.count(t) >= 3 for t in set(times))
-    classes = ["node:" + kind, "consumer:" + list(cm.values())[0], "entries:%d" % (
+    classes = (["detach-reattach"] if case.get("detach") else []) + \
+        ["node:" + kind, "consumer:" + list(cm.values())[0], "entries:%d" % (
         len([n for n in nodes if n["k"] == "entry"]))]
     if idle_gap:
         classes.append("idle-gap")
